@@ -69,6 +69,9 @@ func NewVoteDB(db youdb.Database, rawSk *ecdsa.PrivateKey) *VoteDB {
 		} else if v.round.Cmp(vote.Round) == 0 && v.roundIndex == vote.RoundIndex {
 			v.mark[VoteType(vote.VoteType)] = v.mark[VoteType(vote.VoteType)] + 1
 		} else {
+			// a record of a later round / round index than the ones read so far
+			v.round = vote.Round
+			v.roundIndex = vote.RoundIndex
 			v.mark = make(map[VoteType]uint8)
 			v.mark[VoteType(vote.VoteType)] = 1
 		}
@@ -86,6 +89,9 @@ func NewVoteDB(db youdb.Database, rawSk *ecdsa.PrivateKey) *VoteDB {
 	nextIndex2 := ReadVoteData(v.db, v.addr, NextIndex, 2)
 	updateFn(nextIndex2)
 
+	certificate := ReadVoteData(v.db, v.addr, Certificate, 1)
+	updateFn(certificate)
+
 	return v
 }
 
@@ -98,6 +104,12 @@ func (v *VoteDB) UpdateContext(round *big.Int, roundIndex uint32) {
 	defer v.lock.Unlock()
 
 	if v.round != nil && v.round.Cmp(round) == 0 && v.roundIndex == roundIndex {
+		return
+	}
+	// Never move backwards inside a round: after a restart the server starts again at round
+	// index 1 while votes of a later index of the same round may already be signed. Keeping the
+	// later index makes alreadyVoted refuse every index up to it.
+	if v.round != nil && v.round.Cmp(round) == 0 && v.roundIndex > roundIndex {
 		return
 	}
 
